@@ -26,7 +26,7 @@ ENCODED = ["twisted._threads._team:Team.do", "twisted._threads._team:Team.grow",
            "twisted._threads._memory:createMemoryWorker", "twisted._threads._memory:MemoryWorker.do",
            "twisted._threads._memory:MemoryWorker.quit", "twisted._threads._convenience:Quit.set",
            "twisted._threads._convenience:Quit.check"]
-BOUNDS = {"quick": {"hist": 3, "eager": 4, "sched": 6}, "thorough": {"hist": 5, "eager": 6, "sched": 7}}
+BOUNDS = {"quick": {"hist": 3, "eager": 4, "sched": 6}, "thorough": {"hist": 4, "eager": 5, "sched": 7}}
 B = {}
 BOUNDS_TEXT = ("three exhaustive families of event histories from a fresh Team, each followed by a full drain "
                "(coordinator and all workers performed until nothing is runnable) and the oracle: "
@@ -380,3 +380,12 @@ HARNESSES = [
     H(sched, shards=lambda tier: _sched_shards(),
       timeout={"quick": 100, "thorough": 1500}),
 ]
+
+# concrete scenarios (several after twisted/_threads/test/test_team.py): must hold on the real code
+VECTORS = {
+    "history": [(1, 6, 0, 0, 5, 5, 6, 3, 0, 0, 0, 1, 0, 0, 0, 0, 0, 0), (2, 5, 1, 5, 0, 0, 3, 0, 0, 0, 2, 1, 0, 0, 0, 0, 0, 0),
+                (1, 8, 0, 1, 2, 4, 5, 5, 5, 6, 1, 2, 2, 0, 0, 0, 0, 0), (2, 0, 0, 0, 0, 0, 0, 0, 0, 0, 0, 0, 0, 0, 0, 0, 0, 0)],
+    "eager": [(2, 6, 1, 0, 0, 0, 6, 7, 0, 0, 2, 1, 0, 0, 0, 0, 0, 0), (1, 6, 0, 0, 2, 6, 6, 3, 0, 0, 1, 1, 2, 0, 0, 0, 0, 0),
+              (1, 4, 4, 2, 0, 6, 0, 0, 0, 0, 0, 1, 0, 0, 0, 0, 0, 0)],
+    "sched": [(1, 7, 0, 0, 5, 5, 6, 5, 3, 0, 1), (2, 6, 0, 0, 5, 5, 7, 6, 0, 0, -1)],
+}
